@@ -6,3 +6,4 @@ int g_set_cmp_token;
 #if defined(WITH_SETS) && defined(HAVE_pair_pE_b) && defined(HAVE_GhostCmp)
 struct cset g_cs[2];
 #endif
+int64_t g_in_tok, g_in_tok2, g_in_na, g_in_nb, g_in_la, g_in_lb, g_in_a0, g_in_a1, g_in_a2, g_in_a3, g_in_b0, g_in_b1, g_in_b2, g_in_b3;
